@@ -248,3 +248,54 @@ fn mod_inverse(a: &rsa::BigUint, m: &rsa::BigUint) -> Option<rsa::BigUint> {
     let inv = if old_s.1 { m - (&old_s.0 % m) } else { &old_s.0 % m };
     Some(inv % m)
 }
+
+/// SubjectPublicKeyInfo for an RSA key with arbitrary (n, e)
+pub fn spki_der(n: &rsa::BigUint, e: &rsa::BigUint) -> Vec<u8> {
+    let mut rsapub = Vec::new();
+    der_uint(n, &mut rsapub);
+    der_uint(e, &mut rsapub);
+    let mut seq = vec![0x30];
+    der_len(rsapub.len(), &mut seq);
+    seq.extend_from_slice(&rsapub);
+    let mut bits = vec![0x03];
+    der_len(seq.len() + 1, &mut bits);
+    bits.push(0);
+    bits.extend_from_slice(&seq);
+    // AlgorithmIdentifier { rsaEncryption, NULL }
+    let alg: [u8; 15] = [0x30, 0x0d, 0x06, 0x09, 0x2a, 0x86, 0x48, 0x86, 0xf7, 0x0d, 0x01, 0x01, 0x01, 0x05, 0x00];
+    let mut body = alg.to_vec();
+    body.extend_from_slice(&bits);
+    let mut out = vec![0x30];
+    der_len(body.len(), &mut out);
+    out.extend_from_slice(&body);
+    out
+}
+
+/// structurally odd RSA public keys derived from pool key `i`
+pub fn odd_public_keys(bits: usize, i: usize) -> Vec<(String, Vec<u8>)> {
+    use rsa::pkcs1::DecodeRsaPrivateKey;
+    use rsa::traits::PublicKeyParts;
+    use rsa::BigUint;
+    let der = if bits == 2048 { rsa2048(i) } else { rsa4096(i) };
+    let Ok(k) = rsa::RsaPrivateKey::from_pkcs1_der(&der) else { return Vec::new() };
+    let n = k.n().clone();
+    let one = BigUint::from(1u8);
+    let mut out = Vec::new();
+    for (name, nn, ee) in [
+        ("e-is-zero", n.clone(), BigUint::from(0u8)),
+        ("e-is-one", n.clone(), one.clone()),
+        ("e-is-two", n.clone(), BigUint::from(2u8)),
+        ("e-is-even", n.clone(), BigUint::from(65536u32)),
+        ("e-is-2^33+1", n.clone(), (BigUint::from(1u8) << 33) + &one),
+        ("e-is-n-1", n.clone(), &n - &one),
+        ("e-is-larger-than-n", n.clone(), &n + BigUint::from(2u8)),
+        ("n-is-even", &n + &one, BigUint::from(65537u32)),
+        ("n-is-zero", BigUint::from(0u8), BigUint::from(65537u32)),
+        ("n-is-one", one.clone(), BigUint::from(65537u32)),
+        ("n-is-a-power-of-two", BigUint::from(1u8) << (bits - 1), BigUint::from(65537u32)),
+        ("n-is-all-ones", (BigUint::from(1u8) << bits) - &one, BigUint::from(65537u32)),
+    ] {
+        out.push((format!("rsa-odd-public#{name}"), spki_der(&nn, &ee)));
+    }
+    out
+}
